@@ -1,5 +1,5 @@
 (* C11 Big segment membership, status reporting and query economy *)
-From LD Require Import Base F32 Data Model Ops Bucket Eval EvalFacts Safety WellFormed Pure Order Events Trace.
+From LD Require Import Base F32 Data Model Ops Bucket Eval EvalFacts Safety WellFormed Pure Order Events Trace Status.
 
 Theorem C11_reference_format : forall sg g, big_segment_ref sg g = sg_key sg ++ s ".g" ++ dec g.
 Proof. exact big_segment_ref_format. Qed.
@@ -55,6 +55,30 @@ Theorem C11_query_once : forall re_ok re_match o E P c f out,
   run re_ok re_match o E P c f = Done out -> NoDup (queries (out_trace out)).
 Proof. exact queries_nodup. Qed.
 Print Assumptions C11_query_once.
+
+(* ---- the reported status ----
+   contrib P x: what one observation of the evaluation contributes -- an unbounded segment without a generation, or one
+   looked up for a context that has its kind when no provider is configured: NOT_CONFIGURED; a provider query: the status
+   the provider answered; everything else (a context lacking the kind included): nothing. status_of folds the worst of
+   them. The reason's status IS that fold over the whole evaluation, prerequisites included: reported iff something
+   contributed, and never better than any contribution. *)
+Theorem C11_reported_status_is_worst_seen : forall P re_ok re_match o E c f out,
+  run re_ok re_match o E P c f = Done out ->
+  rs_bigseg (d_reason (out_detail out)) = status_of P (rev (out_trace out)).
+Proof. exact reported_status_is_worst_seen. Qed.
+Print Assumptions C11_reported_status_is_worst_seen.
+Theorem C11_status_reported_iff : forall P tr, status_of P tr <> None <-> exists x, In x tr /\ contrib P x <> None.
+Proof. exact status_reported_iff. Qed.
+Print Assumptions C11_status_reported_iff.
+Theorem C11_status_is_upper_bound : forall P tr x b, In x tr -> contrib P x = Some b ->
+  exists w, status_of P tr = Some w /\ (bs_priority b <= bs_priority w)%Z.
+Proof. exact status_is_upper_bound. Qed.
+Print Assumptions C11_status_is_upper_bound.
+(* holds for every nested evaluation too, from any state in which register and trace agree *)
+Theorem C11_status_register_tracks_the_trace : forall P re_ok re_match o E c fuel chain f s,
+  sync P s -> sync P (snd (eval_flag re_ok re_match o E P c fuel chain f s)).
+Proof. exact sync_eval_flag. Qed.
+Print Assumptions C11_status_register_tracks_the_trace.
 
 (* the priority table of the source (gen/Tables.v, regenerated on every run) is the model's *)
 From LD Require Import TablesProof.
